@@ -1,0 +1,115 @@
+//go:build verif
+
+package bytecode
+
+import (
+	"fmt"
+	"strconv"
+	"strings"
+)
+
+// This file is only compiled with the "verif" build tag. It exposes
+// read-only views of compiler and VM state to an external monitor.
+
+type verifVMState struct {
+	trace func(ip, sp int)
+}
+
+type verifCompilerState struct {
+	notes    map[int]string // instruction position -> variable identity "name@scope"
+	scopeIDs map[*SymbolTable]int
+}
+
+// VerifSetTrace registers a callback invoked before every instruction.
+func (vm *VM) VerifSetTrace(f func(ip, sp int)) { vm.verif.trace = f }
+
+func (vm *VM) verifTrace(ip int) {
+	if vm.verif.trace != nil {
+		vm.verif.trace(ip, vm.sp)
+	}
+}
+
+// VerifSP returns the stack pointer.
+func (vm *VM) VerifSP() int { return vm.sp }
+
+// VerifGlobal renders global number i in the format of the repr builtin
+// (maps in key order).
+func (vm *VM) VerifGlobal(i int) string {
+	if i < 0 || i >= len(vm.globals) {
+		return "<out of range>"
+	}
+	return verifRepr(vm.globals[i])
+}
+
+func verifRepr(v value) string {
+	switch v := v.(type) {
+	case nil:
+		return "<unset>"
+	case numVal, boolVal:
+		return v.String()
+	case stringVal:
+		return strconv.Quote(string(v))
+	case arrayVal:
+		parts := make([]string, len(v.Elements))
+		for i, e := range v.Elements {
+			parts[i] = verifRepr(e)
+		}
+		return "[" + strings.Join(parts, " ") + "]"
+	case mapVal:
+		parts := make([]string, 0, len(v.order))
+		for _, k := range v.order {
+			parts = append(parts, string(k)+":"+verifRepr(v.m[k]))
+		}
+		s := "{" + strings.Join(parts, " ") + "}"
+		if len(v.order) != len(v.m) {
+			s += fmt.Sprintf("<order has %d keys, hash part %d>", len(v.order), len(v.m))
+		}
+		return s
+	case noneVal:
+		return "<none>"
+	}
+	return fmt.Sprintf("<%T>", v)
+}
+
+// VerifGlobalNames returns the index of every global symbol by name.
+func (c *Compiler) VerifGlobalNames() map[string]int {
+	root := c.symbolTable
+	for root.outer != nil {
+		root = root.outer
+	}
+	out := make(map[string]int, len(root.store))
+	for name, sym := range root.store {
+		out[name] = sym.Index
+	}
+	return out
+}
+
+// VerifVarNotes returns, for every emitted variable instruction, the
+// identity of the variable it was compiled for.
+func (c *Compiler) VerifVarNotes() map[int]string { return c.verif.notes }
+
+func (c *Compiler) verifNoteVar(sym Symbol) {
+	if c.verif.notes == nil {
+		c.verif.notes = map[int]string{}
+		c.verif.scopeIDs = map[*SymbolTable]int{}
+	}
+	// find the scope instance that defines the symbol
+	for t := c.symbolTable; t != nil; t = t.outer {
+		if s, ok := t.store[sym.Name]; ok && s == sym {
+			id, seen := c.verif.scopeIDs[t]
+			if !seen {
+				id = len(c.verif.scopeIDs) + 1
+				c.verif.scopeIDs[t] = id
+			}
+			c.verif.notes[len(c.instructions)] = sym.Name + "@" + strconv.Itoa(id)
+			return
+		}
+	}
+	c.verif.notes[len(c.instructions)] = sym.Name + "@?"
+}
+
+// VerifState returns the next free index and the maximum index used by
+// nested scopes.
+func (s *SymbolTable) VerifState() (index, nestedMaxIndex int) {
+	return s.index, s.nestedMaxIndex
+}
